@@ -103,6 +103,12 @@
 //@ extract src/ast/mod.rs :: enum TemplatePart
 //@   rule R0
 //@ end
+//@ extract src/ast/mod.rs :: struct IncludeDef
+//@   rule R0
+//@ end
+//@ extract src/ast/mod.rs :: struct ImportDef
+//@   rule R0
+//@ end
 //@ extract src/ast/mod.rs :: struct ListDef
 //@   rule R0
 //@ end
